@@ -127,7 +127,7 @@ Lemma flush_acc st : w_script st = [] ->
     (if has_known (w_open st) then st else {| w_open := w_open st; w_buf := []; w_dest := w_dest st ++ w_buf st; w_script := [] |}, WOk).
 Proof.
   intros Hs. unfold flush_if_streaming. destruct (has_known (w_open st)); [reflexivity|].
-  unfold private_flush. rewrite Hs. destruct (w_buf st) as [|b tl]; cbn [write_all]; [rewrite app_nil_r|]; reflexivity.
+  rewrite (private_flush_acc st Hs). reflexivity.
 Qed.
 
 Lemma write_step sp st t o st1 : buffer_tag sp t o st = (st1, WOk) -> w_script st = [] ->
